@@ -76,6 +76,9 @@ func c11Decode(bs []byte) (r, s *big.Int, ht uint32, err error, pmsg string) {
 		}
 	}()
 	r, s, ht, err = der.DecodeSignature(bs)
+	if err == nil {
+		retainBig(r, s)
+	}
 	return
 }
 
